@@ -71,12 +71,16 @@
 #define D_IS_PQ(s, d) ((s) == G_P && (d) == G_Q)
 #define D_IS_QP(s, d) ((s) == G_Q && (d) == G_P)
 
-#define D_WF_STRUCT(g)                                                        \
+/* memory-safety structure every proof rests on */
+#define D_WF_SAFE(g)                                                          \
   (BG_ADJ_WF((g)->adjacencyList) && (g)->adjacencyList.n == (g)->size &&      \
    (g)->size <= BG_UMAX && (g)->adjacencyList.r.restBound <= (g)->size &&           \
    (g)->adjacencyList.rowP->bound <= (g)->size &&                             \
    (g)->adjacencyList.rowQ->bound <= (g)->size &&                             \
-   (g)->edgeNumber == D_TOTAL_(g, ID) && (g)->edgeLabels.s.restCount < BG_CAP)
+   (g)->edgeLabels.s.restCount < BG_CAP)
+/* the cached edge count tracks the lists */
+#define D_WF_COUNT(g) ((g)->edgeNumber == D_TOTAL_(g, ID))
+#define D_WF_STRUCT(g) (D_WF_SAFE(g) && D_WF_COUNT(g))
 /* C03: a label entry exists exactly as long as its edge */
 #define D_WF_LABELLED(g)                                                      \
   ((g)->edgeLabels.s.hasPQ == (D_CNT_PQ(g) > 0) &&                              \
@@ -103,7 +107,7 @@
    D_WF_LABELS_<L> is a separate, tagged requires (it belongs to C03 & co.) */
 #define D_PRE(g)                                                              \
   (__CPROVER_is_fresh(g, sizeof(*(g))) && BG_ADJ_FRESH((g)->adjacencyList) && \
-   BG_MAP_FRESH((g)->edgeLabels) && D_WF_STRUCT(g) &&                         \
+   BG_MAP_FRESH((g)->edgeLabels) && D_WF_SAFE(g) &&                           \
    bg_exc == BG_EXC_NONE && BG_SCRATCH_CLEAN)
 /* frame of a mutating member function: every ghost field, never the pointers */
 #define D_FRAME(g, L)                                                         \
@@ -129,7 +133,7 @@
           bg_scratch_row.row.c.len <= (g)->adjacencyList.r.restLen &&         \
           bg_scratch_row.row.c.up <= (g)->adjacencyList.r.restUp))
 /* WF without the clean-cache clause */
-#define D_WF_LOOP(g) (D_WF_STRUCT(g) && bg_cur_adj == &(g)->adjacencyList)
+#define D_WF_LOOP(g) (D_WF_SAFE(g) && bg_cur_adj == &(g)->adjacencyList)
 /* cursor j is a valid position of row r */
 #define IT_IN_ROW(it_, row_)                                                       \
   (!(it_).poisoned && (it_).idx == (row_).idx && (it_).bound == (row_).bound &&           \
